@@ -49,6 +49,7 @@ func (r *oneByteReader) Read(p []byte) (int, error) {
 }
 
 func init() {
+	known.DecWitnesses["FX-DEC-int-minus-leading-zero"] = func() (bool, string) { return Differs(`[-01]`, []int{}) }
 	known.DecWitnesses[known.DecSliceReuse] = func() (bool, string) {
 		type T struct{ C []float32 }
 		mk := func() *T { return &T{C: []float32{1.5, 2.5}} }
